@@ -46,7 +46,7 @@ SYSCALLS = frozenset({
 
     'subprocess.call',
     'subprocess.check_call',
-    'subprocess.check_out',
+    'subprocess.check_output',
     'subprocess.getoutput',
     'subprocess.getstatusoutput',
     'subprocess.run',
